@@ -2,10 +2,12 @@
 C18 — a DTLCP server commits and amplifies nothing before a valid cookie returns.
 
 Property theorems only (helpers are in `Gotlcp.Lemmas.Cookie`).  The model is
-`Gotlcp.Model.Cookie`; the byte layouts it uses are *interpreted* from the regenerated facts
-`Facts.dtlcp.cookieParamsLayout` (what `marshalForCookie` appends) and
-`Facts.dtlcp.cookieWrites` (what `generateCookie` writes into the HMAC), the control skeleton
-of the cookie loop comes from `Facts.dtlcp.cookieLoop*` / `cookiePre*` / `cookiePost*`.
+`Gotlcp.Model.Cookie`; the byte layouts it uses (`marshalForCookie`: what the Go function of that
+name appends; `cookieInputFramed`: what `generateCookie` writes into the HMAC) are literal
+definitions of the model, tied for all inputs to the functions TRANSLATED from the Go source on
+every run (`Gotlcp.Tie.Cookie`, `C18_src_*` below) and no longer read from text-matching facts; the
+control skeleton of the cookie loop (untranslated code) comes from `Facts.dtlcp.cookieLoop*` /
+`cookiePre*` / `cookiePost*`.
 
 HMAC-SM3 is ideal: the theorems quantify over a structure `IdealMAC` whose laws are
 hypotheses (instantiated below to show they are satisfiable), never axioms.
@@ -58,12 +60,16 @@ def helloCallbacks : List String :=
 /-- SM3 digest size in bytes (GB/T 32905): the length of an HMAC-SM3 cookie -/
 def macLen : Nat := 32
 
+/-- What the other theorems use from the UNTRANSLATED source.  The cookie helpers themselves are not
+pinned by text-matching facts any more (formerly `cookieParamsLayout`, `cookieWrites`,
+`cookieMacIsHmacSm3OfSecret`, `cookieVerifyRecomputesConstTime`, which stay in `Facts` as
+information): `Gotlcp.Tie.Cookie` proves the functions translated from the Go text on every run equal
+to the model — `tie_marshalForCookie` (layout), `tie_generateCookie` + `tie_cookieInput` (HMAC with
+algorithm SM3, keyed with the `secret` argument, over 16-bit address length ‖ address ‖ parameters),
+`tie_verifyCookie` (recompute, `subtle.ConstantTimeCompare`; any other comparison is outside the
+translator's subset and lands in `Src.untranslated`, pinned empty by `C18_src_translated`). -/
 theorem C18_facts :
     Facts.missing = []
-    ∧ Facts.dtlcp.cookieParamsLayout = stdLayout
-    ∧ Facts.dtlcp.cookieWrites = ["len16:addr", "addr", "params"]
-    ∧ Facts.dtlcp.cookieMacIsHmacSm3OfSecret = true
-    ∧ Facts.dtlcp.cookieVerifyRecomputesConstTime = true
     ∧ Facts.dtlcp.recordHeaderLen = recordHeaderLen ∧ Facts.dtlcp.dtlcpHeaderLen = handshakeHeaderLen
     ∧ Facts.dtlcp.hvrBodyLenExpr = "2 + 1 + len(m.cookie)"
     ∧ Facts.dtlcp.typeHelloVerifyRequest = 3 ∧ Facts.dtlcp.typeCertificate = 11
@@ -91,21 +97,17 @@ theorem C18_facts :
     ∧ (∀ f ∈ helloCallbacks, f ∉ Facts.dtlcp.cookiePreReachable ∧ f ∈ Facts.dtlcp.cookiePostOnlyReachable) := by
   decide
 
-/-- `marshalForCookie` of this tree -/
-def marshal (h : Hello) : Bytes := marshalWith Facts.dtlcp.cookieParamsLayout h
+/-- `marshalForCookie` of this tree: the model's literal layout; `tie_marshalForCookie` proves the
+function translated from the Go source equal to it for every hello (`C18_src_params_injective`) -/
+def marshal (h : Hello) : Bytes := marshalForCookie h
 
-/-- the HMAC input of `generateCookie` of this tree -/
-def cookieInput (addr params : Bytes) : Bytes := cookieInputWith Facts.dtlcp.cookieWrites addr params
+/-- the HMAC input of `generateCookie` of this tree: the model's framed input; `tie_generateCookie`
+and `tie_cookieInput` prove the translated Go function MACs exactly this (`C18_src_binding`) -/
+def cookieInput (addr params : Bytes) : Bytes := cookieInputFramed addr params
 
-theorem marshal_eq (h : Hello) : marshal h = marshalForCookie h := by
-  unfold marshal
-  rw [C18_facts.2.1]
-  simp [marshalWith, stdLayout, layoutBytes, marshalForCookie]
+theorem marshal_eq (h : Hello) : marshal h = marshalForCookie h := rfl
 
-theorem cookieInput_eq (a p : Bytes) : cookieInput a p = cookieInputFramed a p := by
-  unfold cookieInput
-  rw [C18_facts.2.2.1]
-  simp [cookieInputWith, writeBytes, cookieInputFramed]
+theorem cookieInput_eq (a p : Bytes) : cookieInput a p = cookieInputFramed a p := rfl
 
 /-! ### injectivity of the covered parameters -/
 
@@ -291,7 +293,7 @@ theorem C18_pre_cookie_actions (inp : List (Bool × Bool)) :
     ∧ (∀ f ∈ commitCalls, f ∉ Facts.dtlcp.cookiePreReachable ∧ f ∈ Facts.dtlcp.cookiePostOnlyReachable)
     ∧ Facts.dtlcp.cookiePreHandshakeWrites = ["helloVerifyRequestMsg"]
     ∧ (∀ f ∈ helloCallbacks, f ∉ Facts.dtlcp.cookiePreReachable ∧ f ∈ Facts.dtlcp.cookiePostOnlyReachable) := by
-  refine ⟨?_, ?_, ?_, C18_facts.2.2.2.2.2.2.2.2.2.2.2.2.2.2.2.2.2.2.2.1, C18_facts.2.2.2.2.2.2.2.2.2.2.2.2.2.2.2.2.2.2.1, by decide⟩
+  refine ⟨?_, ?_, ?_, C18_facts.2.2.2.2.2.2.2.2.2.2.2.2.2.2.2.1, C18_facts.2.2.2.2.2.2.2.2.2.2.2.2.2.2.1, by decide⟩
   · induction inp with
     | nil => intro a ha; simp [runLoop] at ha
     | cons x xs ih =>
